@@ -90,7 +90,11 @@ static std::string run_seq(const std::vector<Op> &ops, bool sparse = false) {
                                      "{\"kty\":\"RSA\",\"n\":\"%N\",\"e\":\"AQAB\",\"d\":\"AAAA\",\"p\":\"!\",\"kid\":\"%K\"}", "{\"kty\":\"OKP\",\"crv\":\"Ed25519\",\"x\":\"A\",\"kid\":\"%K\"}", "{\"kty\":\"EC\",\"crv\":\"P-256\",\"x\":\"%X\",\"y\":\"%Y\",\"d\":\"A\",\"kid\":\"%K\"}"};
       std::string d = shapes[(o.a / 3) % 6]; auto rep = [&](const char *k, const std::string &v) { size_t p = d.find(k); if (p != std::string::npos) d.replace(p, 2, v); };
       rep("%X", EC_JWK_X); rep("%Y", EC_JWK_Y); rep("%N", RSA_JWK_N); rep("%K", "bk" + tag);
-      if (do_load(set, d, o.a) != set) bad = "load-returned-other-set"; m.items.push_back({"kid:bk" + tag, "bk" + tag, true}); break; }
+      // one time in five: a good asymmetric key (its key material loads) that is flagged all the same - "alg" is not a string
+      if (o.a % 5 == 4 && !ASYM_JWKS.empty()) { d = ASYM_JWKS[(o.a / 5) % ASYM_JWKS.size()]; size_t p2 = d.find("\"kid\":\"KID\""); if (p2 != std::string::npos) d.replace(p2, 11, "\"kid\":\"bk" + tag + "\"");
+        size_t b0 = d.find('{'); if (b0 != std::string::npos) d.insert(b0 + 1, (o.a & 8) ? "\"alg\":256," : "\"alg\":[\"ES256\"],"); }
+      bool flagged_by_alg = o.a % 5 == 4 && !ASYM_JWKS.empty();   // (the parser stops at the alg member: such an item has no kid)
+      if (do_load(set, d, o.a) != set) bad = "load-returned-other-set"; if (flagged_by_alg) m.items.push_back({"?", "", true}); else m.items.push_back({"kid:bk" + tag, "bk" + tag, true}); break; }
     case L_NONJSON: { if (do_load(set, "{\"keys\": [ nope", o.a) != set) bad = "load-returned-other-set"; m.set_error = 1; break; }
     case L_EMPTYKEYS: { if (do_load(set, "{\"keys\":[]}", o.a) != set) bad = "load-returned-other-set"; break; }
     case O_GET: { size_t idx = o.a % 5 == 0 ? 0 : o.a % 5 == 1 ? cnt / 2 : o.a % 5 == 2 ? (cnt ? cnt - 1 : 0) : o.a % 5 == 3 ? cnt : cnt + 7;
